@@ -6,6 +6,9 @@ import (
 	"encoding/base64"
 	"fmt"
 	"google.golang.org/protobuf/reflect/protoreflect"
+	"io"
+	"net"
+	"net/http"
 	"net/http/httptest"
 	"strconv"
 	"strings"
@@ -13,6 +16,7 @@ import (
 
 	"github.com/gobwas/ws"
 	"github.com/gobwas/ws/wsutil"
+	"google.golang.org/grpc"
 	"google.golang.org/protobuf/encoding/protojson"
 	"google.golang.org/protobuf/encoding/protowire"
 	"google.golang.org/protobuf/proto"
@@ -375,8 +379,93 @@ func c08Limits(c *Ctx) {
 					}
 				}
 			}
+			if sendLimit >= limit {
+				c08ThroughServer(c, sfx, limit, dataFor)
+			}
 			fx.Close()
 		}
+	}
+}
+
+// c08ThroughServer: the limits are per MESSAGE also when the mux is served by the library's own
+// server (NewServer): a body of several messages, each within the limit, totalling far more.
+func c08ThroughServer(c *Ctx, sfx *streamFx, limit int, dataFor func(int) []byte) {
+	fx := sfx.fx
+	srv, err := larking.NewServer(fx.Mux)
+	if err != nil {
+		c.Note("c08 NewServer: " + err.Error())
+		return
+	}
+	lis, err := net.Listen("tcp", "127.0.0.1:0")
+	if err != nil {
+		c.Note("c08 listen: " + err.Error())
+		return
+	}
+	go srv.Serve(lis) //nolint
+	defer srv.Close()
+	cc, _ := grpc.NewClient(lis.Addr().String(), grpcInsecure())
+	defer cc.Close()
+	for _, sizes := range [][]int{{limit, limit, limit, limit}, {limit, limit / 2, limit / 2}, {limit - 1, 1, 1, 1, 1, 1, 1, limit}} {
+		var want [][]byte
+		for _, n := range sizes {
+			want = append(want, dataFor(n))
+		}
+		sfx.reset(nil)
+		ctx, cancel := context.WithTimeout(context.Background(), 5*time.Second)
+		st, err := cc.NewStream(ctx, &grpc.StreamDesc{ClientStreams: true}, "/verif.v1.Svc/Up")
+		for k := 0; err == nil && k < len(want); k++ {
+			err = st.SendMsg(reqWithData(fx, want[k]))
+		}
+		if err == nil {
+			err = st.CloseSend()
+		}
+		if err == nil {
+			err = st.RecvMsg(fx.NewMsg("Reply"))
+		}
+		cancel()
+		in := fmt.Sprintf("NewServer, gRPC client stream: limit=%d message sizes=%v", limit, sizes)
+		c.Eval("server-grpc-stream", in, true)
+		sfx.mu.Lock()
+		got := append([][]byte(nil), sfx.got...)
+		sfx.mu.Unlock()
+		ok := err == nil && len(got) == len(want)
+		for k := 0; ok && k < len(want); k++ {
+			ok = bytes.Equal(got[k], want[k])
+		}
+		if !ok {
+			c.SpecFail("server-grpc-stream", in, fmt.Sprintf("err=%v, %d of %d messages delivered", err, len(got), len(want)), "every message delivered, status OK", "C08/server/grpc-stream-within-limit-refused", "a stream of messages each within the receive limit is refused once their total passes it (served through NewServer)")
+		}
+	}
+	// a chunked HttpBody upload of 8 x limit bytes over real HTTP/1.1
+	big := make([]byte, 8*limit+3)
+	c.Rng.Read(big)
+	sfx.reset(nil)
+	req, _ := http.NewRequest("POST", "http://"+lis.Addr().String()+"/c06/upload/f", io.NopCloser(bytes.NewReader(big)))
+	req.Header.Set("Content-Type", "application/octet-stream")
+	req.ContentLength = -1
+	hc := &http.Client{Timeout: 5 * time.Second}
+	resp, err := hc.Do(req)
+	code := 0
+	if err == nil {
+		io.Copy(io.Discard, resp.Body) //nolint
+		resp.Body.Close()
+		code = resp.StatusCode
+	}
+	hc.CloseIdleConnections()
+	in := fmt.Sprintf("NewServer, HTTP/1.1 chunked HttpBody upload: limit=%d upload=%d", limit, len(big))
+	c.Eval("server-http-upload", in, true)
+	sfx.mu.Lock()
+	var all []byte
+	maxChunk := 0
+	for _, g := range sfx.got {
+		all = append(all, g...)
+		maxChunk = max(maxChunk, len(g))
+	}
+	sfx.mu.Unlock()
+	if maxChunk > limit {
+		c.SpecFail("server-http-upload", in, fmt.Sprintf("a chunk of %d bytes", maxChunk), fmt.Sprintf("chunks of at most %d", limit), "C08/server/chunk-over-limit", "a streamed HttpBody chunk larger than the receive limit reaches the handler")
+	} else if err != nil || code != 200 || !bytes.Equal(all, big) {
+		c.SpecFail("server-http-upload", in, fmt.Sprintf("err=%v status=%d, %d of %d bytes", err, code, len(all), len(big)), "all bytes in chunks within the limit", "C08/server/upload-within-limit-refused", "a streamed upload whose chunks are within the limit is refused once the body passes it (served through NewServer)")
 	}
 }
 
